@@ -45,6 +45,13 @@ def handle : Handler
       else if !groupsAsT adj k l then some "fails groups"
       else if st && !stableAtT adj k then some "fails not-stable"
       else some "holds") "bad-args"
+  -- spec (large graphs): colours group the nodes as the *stable* refinement does (rounds computed until stable)
+  | "c02.spec_stable", [n, ip, ix, labels] => some <| Option.getD (do
+      let adj ← adj? n ip ix
+      let l ← natList? labels
+      if l.length != adj.length then some "fails length"
+      else if !groupsAsStable adj l then some "fails groups"
+      else some "holds") "bad-args"
   -- spec: the least k at which refinement is stable, and the classes then (canonical labels by first member)
   | "c02.refine", [n, ip, ix] => some <| Option.getD (do
       let adj ← adj? n ip ix
